@@ -131,6 +131,7 @@ type storeInst struct {
 }
 
 type storeCase struct {
+	nfiles   int
 	kind     string
 	batch    int
 	chunk    int
@@ -153,7 +154,8 @@ func (sc *storeCase) newInst() (*storeInst, error) {
 			if sc.tmp == "" {
 				sc.tmp, _ = os.MkdirTemp("", "verifsql")
 			}
-			path = filepath.Join(sc.tmp, fmt.Sprintf("db%d.sqlite", len(sc.insts)))
+			sc.nfiles++ // never reuse a file name, also after an instance was dropped
+			path = filepath.Join(sc.tmp, fmt.Sprintf("db%d.sqlite", sc.nfiles))
 		}
 		var opts []ebsql.Option
 		if sc.batch > 0 {
